@@ -17,9 +17,10 @@ Inductive res (A : Type) := Ok (a : A) | Raised.
 Arguments Ok {A} a.
 Arguments Raised {A}.
 
-(* switches for defects recorded in findings.d/C09.json: [false] = /repo as it is today *)
-Definition fixed_D18 : bool := false.          (* ternary ops align operand lists with sorting_keys=keys *)
-Definition fixed_inplace_extra : bool := false. (* in-place binary ops check that `other` has no extra key *)
+(* switches for the defects repaired by fixes/C09/*.diff: [true] = /repo with the patch, [false] = /repo before it *)
+Definition fixed_D18 : bool := true.           (* D18: ternary ops align operand lists with sorting_keys=keys *)
+Definition fixed_inplace_extra : bool := true. (* D42: _values_list(sorting_keys=...) has the length check of _items_list *)
+Definition fixed_D49 : bool := true.           (* D49: _items_list no longer returns ((), ()) early for an empty tensordict *)
 
 Section Align.
   Context {V : Type}.
@@ -40,10 +41,11 @@ Section Align.
     end.
 
   (* other._items_list(True, True, sorting_keys=sorting, default=d) *)
-  Definition items_list_c09 (other : items) (sorting : list string) (d : dflt) : option (list string * list V) :=
-    match other with
-    | [] => Some ([], [])                                   (* `if not keys_vals: return (), ()` *)
-    | _ =>
+  Definition is_nil {A} (l : list A) : bool := match l with [] => true | _ => false end.
+  Definition items_list_c09 (fx49 : bool) (other : items) (sorting : list string) (d : dflt)
+    : option (list string * list V) :=
+    if negb fx49 && is_nil other then Some ([], [])         (* before D49: `if not keys_vals: return (), ()` *)
+    else
       let keys := keys_of other in
       let source := dict_of other in
       match d with
@@ -55,12 +57,14 @@ Section Align.
           (* list(set(sorting_keys).union(keys)): the order is the hash order; modelled as first occurrences *)
           let new_keys := dedup (sorting ++ keys) in
           Some (new_keys, map (fun k => match dget source k with Some x => x | None => v end) new_keys)
-      end
-    end.
+      end.
 
-  (* other._values_list(True, True, sorting_keys=sorting): no length check *)
-  Definition values_list_c09 (other : items) (sorting : list string) : option (list V) :=
-    align_eager (keys_of other) (vals_of other) sorting.
+  (* other._values_list(True, True, sorting_keys=sorting); [chk]: the length check added by the D42 patch *)
+  Definition values_list_c09 (chk : bool) (other : items) (sorting : list string) : option (list V) :=
+    match align_eager (keys_of other) (vals_of other) sorting with
+    | Some ov => if chk && Nat.ltb (List.length ov) (List.length other) then None else Some ov
+    | None => None
+    end.
 
   (* the right-hand side handed to torch for one leaf *)
   Inductive rhs := RLeaf (v : V) | ROperand    (* ROperand: the scalar / tensor operand itself *)
@@ -95,7 +99,7 @@ Section Align.
        items = dict(zip(keys, f(vals, other_val)));  result = {every entry of items}  (pop for self's leaves + update) *)
   (* [closed]: the result cannot take a key self does not have — a locked tensordict (the result inherits the lock and
      `result.update(items)` raises) or a tensorclass (no such field) *)
-  Definition binary_plan (f : family) (closed : bool) (s : items) (other : operand) (d : dflt)
+  Definition binary_plan (fx49 : bool) (f : family) (closed : bool) (s : items) (other : operand) (d : dflt)
     : res (list (string * (V * rhs))) :=
     let keys := keys_of s in
     let vals := vals_of s in
@@ -103,7 +107,7 @@ Section Align.
     | OpScalar =>
         match combine_scalar f vals with Ok c => Ok (dict_of (combine keys c)) | Raised => Raised end
     | OpTd o =>
-        match items_list_c09 o keys d with
+        match items_list_c09 fx49 o keys d with
         | None => Raised
         | Some (new_keys, other_val) =>
             let kv : option (list string * list V) :=
@@ -131,31 +135,29 @@ Section Align.
     match other with
     | OpScalar => match combine_scalar f vals with Ok c => Ok (combine keys c) | Raised => Raised end
     | OpTd o =>
-        match values_list_c09 o keys with
+        match values_list_c09 fixed o keys with
         | None => Raised
-        | Some ov =>
-            if fixed && Nat.ltb (List.length ov) (List.length o) then Raised else
-            match combine_vals f vals ov with Ok c => Ok (combine keys c) | Raised => Raised end
+        | Some ov => match combine_vals f vals ov with Ok c => Ok (combine keys c) | Raised => Raised end
         end
     end.
 
   (* ternary fused ops (lerp, addcdiv, addcmul and in-place forms):
        other_i_val = other_i._values_list(True, True)            -- positional (D18)
        [fixed]       other_i._values_list(True, True, sorting_keys=keys) *)
-  Definition tern_vals (fixed : bool) (keys : list string) (o : operand) : res (option (list V)) :=
+  Definition tern_vals (fixed chk : bool) (keys : list string) (o : operand) : res (option (list V)) :=
     match o with
     | OpScalar => Ok None
-    | OpTd l => if fixed then match values_list_c09 l keys with Some vs => Ok (Some vs) | None => Raised end
+    | OpTd l => if fixed then match values_list_c09 chk l keys with Some vs => Ok (Some vs) | None => Raised end
                 else Ok (Some (vals_of l))
     end.
 
   Definition rhs_list (n : nat) (o : option (list V)) : list rhs :=
     match o with Some l => map RLeaf l | None => repeat ROperand n end.
 
-  Definition ternary_plan (fixed : bool) (s : items) (o1 o2 : operand) : res (list (string * (V * rhs * rhs))) :=
+  Definition ternary_plan (fixed chk : bool) (s : items) (o1 o2 : operand) : res (list (string * (V * rhs * rhs))) :=
     let keys := keys_of s in
     let vals := vals_of s in
-    match tern_vals fixed keys o1, tern_vals fixed keys o2 with
+    match tern_vals fixed chk keys o1, tern_vals fixed chk keys o2 with
     | Ok v1, Ok v2 =>
         let n := List.length vals in
         let okl := fun o : option (list V) => match o with Some l => Nat.eqb (List.length l) n | None => true end in
@@ -229,7 +231,7 @@ Inductive dunder := DuAdd | DuRadd | DuIadd | DuSub | DuRsub | DuIsub | DuMul | 
                   | DuTruediv | DuRtruediv | DuItruediv | DuPow | DuRpow | DuIpow
                   | DuAnd | DuRand | DuOr | DuRor | DuXor | DuRxor.
 
-Definition fixed_rsub : bool := false.
+Definition fixed_rsub : bool := true.    (* D40 *)
 
 (* (method called, in-place?, self is the left argument?) as the code does it *)
 Definition dunder_impl (fixed : bool) (d : dunder) : method * bool * bool :=
